@@ -70,6 +70,13 @@ def run_drill_types(case, rec):
     where = f"drill-types:{'same-object' if case['same_object'] else 'new-object'}:{'read-first' if case['read_first'] else 'lazy'}"
     try:
         ws = Workspace.create(path, version=case["version"])
+        if case["version"] == 2.0 or case["read_first"]:
+            # another campaign's drillhole group, made first: the project holds more than one
+            first = DrillholeGroup.create(ws, name="earlier campaign")
+            fh = Drillhole.create(ws, parent=first, name="old hole", collar=[50.0, 50.0, 0.0], surveys=np.array([[0.0, 0.0, -90.0], [20.0, 0.0, -90.0]]))
+            fh.add_data({"Sn": {"depth": np.arange(2.0) + 0.5, "values": np.arange(2.0)}}, property_group="old assay")
+            del first, fh
+            rec.see("projects-with-two-drillhole-groups")
         grp = DrillholeGroup.create(ws, name="DH")
         for i in range(2):
             h = Drillhole.create(ws, parent=grp, name=f"hole{i}", collar=[float(i), 0.0, 0.0], surveys=np.array([[0.0, 0.0, -90.0], [50.0, 0.0, -90.0]]))
